@@ -14,7 +14,7 @@ def bit? : String → Option Bool
   | "1" => some true
   | _ => none
 
-def constGroup (pkv sigv : Bool) : Group := { blsPk := fun _ => pkv, blsSig := fun _ => sigv }
+def constGroup (pkv sigv : Bool) : Group := { validPk := fun _ => pkv, validSig := fun _ => sigv }
 
 /-
   unm  <scheme> <auth bytes> <pkValid> <sigValid>         → ok <pk> <sig> | err-size | err-type | err-point
